@@ -56,3 +56,115 @@ theorem dumpBytes_length (need store : Nat) (h : 1 ≤ need) : (dumpBytes need s
   unfold dumpBytes; simp [be7_length]; omega
 
 end Tbox.C19.SInt
+
+/-! ### round trip -/
+namespace Tbox.C19.SInt
+open Tbox.C19
+
+def getMax (k : Nat) : Nat := Gen.siMax.getD k 0
+def getMin (k : Nat) : Nat := Gen.siMin.getD k 0
+
+theorem tblRead_getD (name : String) (tbl : List Nat) (i : Nat) (h : i < tbl.length) :
+    tblRead name tbl i = .ok (tbl.getD i 0) := by
+  unfold tblRead
+  rw [List.getElem?_eq_getElem h]
+  simp [List.getD_eq_getElem?_getD, List.getElem?_eq_getElem h]
+
+/-- what the length search returns: the first length class whose maximum is ≥ v (or 10) -/
+theorem needGo_char (v : Nat) : ∀ fuel need, 1 ≤ need → need + fuel ≥ 10 → need ≤ 10 →
+    ∃ n, needGo v fuel need = .ok n ∧ need ≤ n ∧ n ≤ 10 ∧ (n < 10 → v ≤ getMax n)
+      ∧ (need < n → getMax (n - 1) < v) := by
+  intro fuel
+  induction fuel with
+  | zero => intro need h1 hf h2; exact ⟨need, rfl, Nat.le_refl _, h2, by omega, by omega⟩
+  | succ f ih =>
+    intro need h1 hf h2
+    unfold needGo
+    by_cases hn : need < 10
+    · simp only [hn, if_true]
+      rw [tblRead_getD "_max_value_tbl" Gen.siMax need (by rw [siMax_length]; exact hn)]
+      simp only [Res.bind_ok]
+      by_cases hv : v ≤ Gen.siMax.getD need 0
+      · simp only [hv, if_true]; exact ⟨need, rfl, Nat.le_refl _, h2, fun _ => hv, by omega⟩
+      · simp only [hv, if_false]
+        obtain ⟨n, e, a, b, c, d⟩ := ih (need + 1) (by omega) (by omega) (by omega)
+        refine ⟨n, e, by omega, b, c, ?_⟩
+        intro _
+        by_cases hh : need + 1 < n
+        · exact d hh
+        · have : n = need + 1 := by omega
+          subst this; simp only [Nat.add_sub_cancel]; unfold getMax; omega
+    · simp only [hn, if_false]; exact ⟨need, rfl, Nat.le_refl _, h2, by omega, by omega⟩
+
+/-- table facts used by the round trip (all 10 length classes, by evaluation of the extracted table) -/
+theorem table_facts : ∀ n : Fin 11, 1 ≤ n.val →
+    (n.val < 10 → getMax n.val < getMin n.val + 128 ^ n.val) ∧
+    (1 < n.val → getMin n.val = getMax (n.val - 1) + 1) ∧
+    getMin 1 = 0 ∧ W ≤ getMin 10 + 128 ^ 10 ∧ getMin n.val < W := by decide +kernel
+
+end Tbox.C19.SInt
+
+namespace Tbox.C19.SInt
+open Tbox.C19
+
+def fW (acc d : Nat) : Nat := (acc * 128) % W + d
+
+theorem be7_lt : ∀ k s, ∀ d ∈ be7 k s, d < 128 := by
+  intro k; induction k with
+  | zero => intro s d h; simp [be7] at h
+  | succ k ih =>
+    intro s d h
+    simp only [be7, List.mem_append, List.mem_singleton] at h
+    rcases h with h | h
+    · exact ih _ _ h
+    · omega
+
+theorem foldl_be7 : ∀ k s, s < W → (be7 k s).foldl fW 0 = s % 128 ^ k := by
+  intro k; induction k with
+  | zero => intro s _; simp [be7, Nat.mod_one]
+  | succ k ih =>
+    intro s hs
+    have hs' : s / 128 < W := by omega
+    simp only [be7, List.foldl_append, List.foldl_cons, List.foldl_nil, ih _ hs', fW]
+    rw [Nat.pow_succ, Nat.mul_comm (128 ^ k) 128, Nat.mod_mul]
+    have ht : (s / 128) % 128 ^ k ≤ s / 128 := Nat.mod_le _ _
+    generalize (s / 128) % 128 ^ k = t at ht
+    have : t * 128 < W := by omega
+    rw [Nat.mod_eq_of_lt this]; omega
+
+theorem parseGo_digits (lim : Nat) : ∀ (ds : List Nat) (t i rb rv : Nat), (∀ d ∈ ds, d < 128) → t < 128 →
+    i + ds.length < lim →
+    parseGo lim i rb rv (ds.map (fun d => UInt8.ofNat (128 + d)) ++ [UInt8.ofNat t])
+      = some (rb + ds.length, (ds ++ [t]).foldl fW rv) := by
+  intro ds
+  induction ds with
+  | nil =>
+    intro t i rb rv _ ht hi
+    have h1 : (UInt8.ofNat t).toNat = t := by simp; omega
+    simp only [List.map_nil, List.nil_append, parseGo, h1]
+    simp only [List.length_nil, Nat.add_zero] at hi
+    simp [hi, ht, fW, Nat.mod_eq_of_lt ht]
+  | cons d ds ih =>
+    intro t i rb rv hd ht hi
+    have hd0 : d < 128 := hd d (by simp)
+    have h1 : (UInt8.ofNat (128 + d)).toNat = 128 + d := by simp; omega
+    simp only [List.map_cons, List.cons_append, parseGo, h1]
+    simp only [List.length_cons] at hi
+    have e1 : (128 + d) % 128 = d := by omega
+    have e2 : ¬ (128 + d < 128) := by omega
+    simp only [show i < lim by omega, if_true, e1, e2, if_false]
+    rw [ih t (i + 1) (rb + 1) _ (fun x hx => hd x (by simp [hx])) ht (by omega)]
+    simp [fW]; omega
+
+theorem dumpBytes_parse (n store : Nat) (h1 : 1 ≤ n) (h10 : n ≤ 10) (hs : store < 128 ^ n) (hw : store < W) :
+    parseGo 10 0 1 0 (dumpBytes n store) = some (n, store) := by
+  unfold dumpBytes
+  rw [parseGo_digits 10 _ _ 0 1 0 (be7_lt _ _) (by omega) (by rw [be7_length]; omega)]
+  have hb : be7 (n - 1) (store / 128) ++ [store % 128] = be7 n store := by
+    obtain ⟨m, rfl⟩ : ∃ m, n = m + 1 := ⟨n - 1, by omega⟩
+    simp [be7]
+  rw [hb, foldl_be7 n store hw, be7_length, Nat.mod_eq_of_lt hs]
+  congr 2; omega
+
+end Tbox.C19.SInt
+
